@@ -66,6 +66,10 @@ func alphabet() []*elem {
 		{Name: "req-announce-body", Kind: "request", Class: "body", Method: "ANNOUNCE", URL: "rtsp://example.com:8554/s",
 			Header: map[string][]string{"CSeq": {"3"}, "Content-Type": {"application/sdp"}},
 			Body:   []byte("v=0\r\n\r\n$\x00\x00\x01RTSP/1.0 200 OK\r\n\r\nOPTIONS"), Reduced: true, Seq: true},
+		// a header map that still carries the Content-Length of an earlier message with a body (Marshal writes
+		// the header into the caller's map), on a message without body: the length belongs to the body
+		{Name: "req-stale-content-length", Kind: "request", Class: "stale-content-length", Method: "PLAY", URL: "rtsp://host/s",
+			Header: map[string][]string{"CSeq": {"12"}, "Content-Length": {"3"}}, Seq: true},
 		{Name: "req-setup-multivalue", Kind: "request", Class: "multi-value", Method: "SETUP", URL: "rtsp://host/s/trackID=0",
 			Header: map[string][]string{
 				"CSeq": {"4"}, "Transport": {"RTP/AVP/TCP;unicast;interleaved=0-1"},
@@ -178,6 +182,8 @@ func (e *elem) expect() *expected {
 	}
 	if e.Kind != "frame" && len(e.Body) != 0 {
 		x.header["Content-Length"] = []string{strconv.Itoa(len(e.Body))}
+	} else {
+		delete(x.header, "Content-Length") // derived from the body by the serialiser: none without a body
 	}
 	if e.Kind == "request" && e.URL != "*" {
 		u, _ := url.Parse(e.URL)
